@@ -24,7 +24,7 @@ PINNED = [
     "slice_valid_or_error_full_refuted", "range_incl_max_refuted", "with_bounds_beyond_end_refuted",
     "split_empty_pattern_stuck", "size_hint_never_panics", "to_list_exhausted_is_empty", "chars_concat",
     "char_indices_tile", "split_join", "lines_spec", "escape_total", "escape_unicode_value", "escape_overflow_refuted",
-    "format_spec_parse_total", "strip_prefix_spec", "strip_suffix_spec", "repeat_len", "trim_is_end_after_start", "trim_matches_laws", "format_fill_count", "format_fill_count_refuted",
+    "format_spec_parse_total", "strip_prefix_spec", "strip_suffix_spec", "repeat_len", "trim_is_end_after_start", "trim_matches_laws", "continuation_skips_crlf", "format_fill_count", "format_fill_count_refuted",
 ]
 
 ALPHABET = ["a", "é", "€", "😀", "́", "\r", "\n", " "]
@@ -680,6 +680,124 @@ def d_esc(c, r):
     return [], set()
 
 
+# ---- string-literal escape family x line endings -------------------------------------------------------
+
+WS_NOT_LF = set("\t\x0b\x0c\r \x85\xa0\u1680\u2028\u2029\u202f\u205f\u3000") | {chr(c) for c in range(0x2000, 0x200b)}
+
+
+def ref_decode(body):
+    """the documented decoding of a literal's body (python's own definition): returns text, or None for a
+    syntax error.  Continuation = backslash, optional CR, LF, then the next line's leading whitespace is skipped;
+    a backslash followed by a bare CR is rejected by the lexer."""
+    out = []
+    i = 0
+    n = len(body)
+    simple = {"n": "\n", "r": "\r", "t": "\t", "\\": "\\", "'": "'", '"': '"', "{": "{"}
+    while i < n:
+        c = body[i]
+        if c != "\\":
+            out.append(c)
+            i += 1
+            continue
+        i += 1
+        if i >= n:
+            return None
+        e = body[i]
+        i += 1
+        if e in simple:
+            out.append(simple[e])
+        elif e == "\n" or (e == "\r" and i < n and body[i] == "\n"):
+            if e == "\r":
+                i += 1
+            while i < n and body[i] in WS_NOT_LF:
+                i += 1
+        elif e == "x":
+            h = body[i:i + 2]
+            if len(h) < 2 or any(ch not in "0123456789abcdefABCDEF" for ch in h) or int(h, 16) > 0x7f:
+                return None
+            out.append(chr(int(h, 16)))
+            i += 2
+        elif e == "u":
+            if i >= n or body[i] != "{":
+                return None
+            j = i + 1
+            while j < n and body[j] in "0123456789abcdefABCDEF":
+                j += 1
+            if j >= n or body[j] != "}" or j - (i + 1) > 8:
+                return None
+            v = int(body[i + 1:j] or "0", 16)
+            if v > 0x10ffff or 0xd800 <= v <= 0xdfff:
+                return None
+            out.append(chr(v))
+            i = j + 1
+        else:
+            return None
+    return "".join(out)
+
+
+LIT_ESCAPES = ["\\n", "\\r", "\\t", "\\\\", "\\'", '\\"', "\\{", "\\x41", "\\x7f", "\\u{e9}", "\\u{1F600}", "\\$", "\\q"]
+LIT_INDENT = ["", " ", "    ", "\t", " \t ", "  \t"]
+
+
+def gen_lit_cases(tier, seed):
+    """escape kinds x quote x line ending (LF / CRLF / mixed) x continuation indentation, also as segments of an
+    interpolated string"""
+    rng = C.Rng(seed + 31337)
+    cases = []
+
+    def add(origin, quote, body, interp, ending):
+        # body uses LF; the whole SOURCE is then written with the chosen line ending
+        lit = quote + body + quote
+        src = ("z = 'Z'\n" if interp else "") + lit + "\n"
+        if ending == "crlf":
+            src = src.replace("\n", "\r\n")
+            body2 = body.replace("\n", "\r\n")
+        elif ending == "mixed":
+            parts = src.split("\n")
+            src = "".join(p + ("\r\n" if i % 2 == 0 else "\n") for i, p in enumerate(parts[:-1])) + parts[-1]
+            # recompute the body as it appears in the source
+            body2 = src[src.index(quote) + 1:src.rindex(quote)] if not interp else src[src.index(lit[0], src.index("Z'") + 2) + 1:src.rindex(quote)]
+        else:
+            body2 = body
+        cases.append({"kind": "lit", "origin": origin, "src": [ord(ch) for ch in src], "body": body2, "quote": quote,
+                      "interp": interp, "ending": ending})
+
+    for quote in ("'", '"'):
+        for ending in ("lf", "crlf", "mixed"):
+            for interp in (False, True):
+                mid = "{z}" if interp else ""
+                # each escape kind alone, then followed by a continuation with each indentation
+                for e in LIT_ESCAPES:
+                    add("literal-escapes", quote, "a" + e + mid + "b", interp, ending)
+                for ind in LIT_INDENT:
+                    add("literal-continuation", quote, "foo\\\n" + ind + "bar" + mid, interp, ending)
+                    add("literal-continuation", quote, "foo" + mid + "\\\n" + ind + "\\\n" + ind + "bar", interp, ending)
+                    add("literal-continuation", quote, "a\n" + ind + "b\\\n" + ind + mid + "c\n", interp, ending)
+                    e = rng.choice(LIT_ESCAPES[:11])
+                    add("literal-continuation", quote, e + "\\\n" + ind + e + mid, interp, ending)
+    return cases
+
+
+def d_lit(c, r):
+    """D-clause: the runtime bytes of the literal are the documented decoding of its source text"""
+    if "panic" in r:
+        return [f"the source {''.join(chr(x) for x in c['src'])!r} panics: {r['panic']} at {r.get('at')}"]
+    body = c["body"]
+    if c["interp"]:
+        segs = body.split("{z}")
+        decs = [ref_decode(x) for x in segs]
+        exp = None if any(d is None for d in decs) else "Z".join(decs)
+    else:
+        exp = ref_decode(body)
+    expv = [2] if exp is None else [0] + list(exp.encode("utf-8"))
+    if r.get("lit") != expv:
+        src = "".join(chr(x) for x in c["src"])
+        got = repr(bytes(r["lit"][1:])) if r.get("lit", [9])[0] == 0 else repr(r.get("lit"))
+        want = repr(exp.encode("utf-8")) if exp is not None else "a syntax error"
+        return [f"the {c['ending'].upper()} source {src!r} evaluates to {got}, the literal denotes {want}"]
+    return []
+
+
 def d_fparse(c, r):
     if "panic" in r:
         spec = "".join(chr(x) for x in c["spec"])
@@ -1052,6 +1170,40 @@ def run(tier, seed):
                 other_disagreements.append(("escape", c, exp, got))
                 chk.log(f"escape disagreement: body {c['body']}: model expects {exp}, koto gives {got}")
 
+    # ---- string literals: escape kinds x quotes x line endings (LF / CRLF / mixed) x continuation indentation
+    lcases = gen_lit_cases(tier, seed)
+    limpl, lout = run_harness(binp, lcases, "lit")
+    if limpl is None:
+        chk.oblige("corr:literal decoding model vs koto", False, "harness failed on the literal cases")
+    else:
+        dist["literals"] = len(lcases)
+        for c, r in zip(lcases, limpl):
+            fails = d_lit(c, r)
+            chk.count_case("lit:" + json.dumps(c["src"]), "\\" in c["body"])
+            if fails:
+                other_fail.append(((len(c["src"]), 0), c, fails, r))
+        lvals = None
+        plain = [(c, r) for c, r in zip(lcases, limpl) if not c["interp"] and "panic" not in r]
+        if model_ok:
+            header = "From KV.str Require Import StrBase EscModel.\nOpen Scope N_scope.\n"
+            try:
+                lvals = C.coq_eval(UNIT, header, [f"enc_decode {C.coq_list([ord(ch) for ch in c['body']])}" for c, r in plain],
+                                   tag="c15lit", per_shard=300)
+            except RuntimeError as e:
+                chk.log(str(e)[-2000:])
+        if lvals is None:
+            chk.oblige("corr:literal decoding model vs koto", False, "model evaluation failed")
+        else:
+            mism = []
+            for (c, r), m in zip(plain, lvals):
+                mexp = [0] + list("".join(chr(x) for x in m[1:]).encode("utf-8")) if m[0] == 0 else [m[0]]
+                if r["lit"] != mexp:
+                    mism.append((c, r["lit"], mexp))
+            chk.oblige("corr:literal decoding model vs koto", not mism, f"{len(mism)} disagreements")
+            for c, got, m in mism[:1]:
+                other_disagreements.append(("literal", c, m, got))
+                chk.log(f"literal disagreement: body {c['body']!r}: model {m}, koto {got}")
+
     # ---- verdict: a failing clause (or a panic) on ANY case kind is an input violation with that case as replay
     def size_key(x):
         return (len(cases[x[0]]["s"]), cases[x[0]]["variant"])
@@ -1068,7 +1220,7 @@ def run(tier, seed):
             payload["impl_says"] = r
         chk.violation("input", payload)
         what = repr(case_text(c)) + f" variant {c['variant']}" if c.get("kind", "str") == "str" else json.dumps(
-            {k: v for k, v in c.items() if k in ("kind", "value", "full", "spec", "body")}, ensure_ascii=False)
+            {k: v for k, v in c.items() if k in ("kind", "value", "full", "spec", "body", "ending")}, ensure_ascii=False)
         chk.log(f"{len(all_fail)} inputs violate C15 on the implementation; smallest: {what}: {fails[:2]}")
     broken = [o for o in chk.obligations if not o[1]]
     if broken and not all_fail:
@@ -1114,6 +1266,18 @@ def replay(path, args):
         print("replay file names an obligation, not an input:", json.dumps(data.get("broken")))
         return run("quick", data.get("seed", 1))
     binp, blog = C.build_harness("kh_str")
+    if c.get("kind") == "lit":
+        impl, out = run_harness(binp, [c], "replay")
+        r = impl[0] if impl else {"panic": "harness crashed"}
+        print(json.dumps(r))
+        fails = d_lit(c, r)
+        for f in fails:
+            print("  " + f)
+        if fails:
+            print(f"VIOLATION property={PID} replay={path}")
+            return 1
+        print("no clause of C15 fails on this input")
+        return 0
     if c.get("kind") in ("fparse", "esc", "fmt"):
         impl, out = run_harness(binp, [c], "replay")
         r = impl[0] if impl else {"panic": "harness crashed"}
